@@ -1,7 +1,185 @@
-import Dhcp.Driver.Hex
-/- Line-protocol operations of the `V6` family (stub until the model lands). -/
+import Dhcp.Driver.Sx
+import Dhcp.Driver.V4
+import Dhcp.V6.Codec
+/- Line-protocol operations of the DHCPv6 codec. -/
 namespace Dhcp.Driver
+open Dhcp Dhcp.V6
 
-def stepV6 (_op : String) (_args : List String) : Option String := none
+def sxLabels (l : Label.Labels) : Sx := .app "L" [sxOptBytes l.original, .list (l.labels.map sxBytes)]
+
+def sxDUID : DUID → Sx
+  | .llt ht t a => .app "llt" [sxNat ht, sxNat t, sxBytes a]
+  | .en n i => .app "en" [sxNat n, sxBytes i]
+  | .ll ht a => .app "ll" [sxNat ht, sxBytes a]
+  | .uuid u => .app "uuid" [sxBytes u]
+  | .opaque t d => .app "opaque" [sxNat t, sxBytes d]
+
+def sxNTP : NTPSub → Sx
+  | .srvAddr ip => .app "srvaddr" [sxOptBytes ip]
+  | .mcAddr ip => .app "mcaddr" [sxOptBytes ip]
+  | .srvFQDN l => .app "srvfqdn" [sxLabels l]
+  | .generic c d => .app "g" [sxNat c, sxBytes d]
+
+def sxPkt4 (p : V4.Pkt4) : Sx := .atom (((showPkt4 p).replace " " "|").replace "," "+")
+
+mutual
+partial def sxOpt : Opt6 → Sx
+  | .clientID d => .app "clientid" [sxDUID d]
+  | .serverID d => .app "serverid" [sxDUID d]
+  | .iana i t1 t2 os => .app "iana" [sxBytes i, sxInt t1, sxInt t2, .list (os.map sxOpt)]
+  | .iata i os => .app "iata" [sxBytes i, .list (os.map sxOpt)]
+  | .iaaddr ip p v os => .app "iaaddr" [sxOptBytes ip, sxInt p, sxInt v, .list (os.map sxOpt)]
+  | .oro cs => .app "oro" [.list (cs.map sxNat)]
+  | .elapsed d => .app "elapsed" [sxInt d]
+  | .relayMsg m => .app "relaymsg" [sxMsg m]
+  | .status c m => .app "status" [sxNat c, sxBytes m]
+  | .userClass cls => .app "userclass" [.list (cls.map sxBytes)]
+  | .vendorClass en ds => .app "vendorclass" [sxNat en, .list (ds.map sxBytes)]
+  | .vendorOpts en os => .app "vendoropts" [sxNat en, .list (os.map (fun o => .app "g" [sxNat o.1, sxBytes o.2]))]
+  | .interfaceID id => .app "interfaceid" [sxBytes id]
+  | .dns ips => .app "dns" [.list (ips.map sxOptBytes)]
+  | .domainSearch l => .app "domainsearch" [sxLabels l]
+  | .iapd i t1 t2 os => .app "iapd" [sxBytes i, sxInt t1, sxInt t2, .list (os.map sxOpt)]
+  | .iaprefix p v pfx os =>
+    .app "iaprefix" [sxInt p, sxInt v,
+      (match pfx with | none => .atom "nil" | some (n, ip) => .app "pfx" [sxNat n, sxOptBytes ip]),
+      .list (os.map sxOpt)]
+  | .infoRefresh d => .app "inforefresh" [sxInt d]
+  | .remoteID en id => .app "remoteid" [sxNat en, sxBytes id]
+  | .fqdn f n => .app "fqdn" [sxNat f.toNat, sxLabels n]
+  | .ntp subs => .app "ntp" [.list (subs.map sxNTP)]
+  | .bootfileURL u => .app "bootfileurl" [sxBytes u]
+  | .bootfileParam ps => .app "bootfileparam" [.list (ps.map sxBytes)]
+  | .archType as => .app "archtype" [.list (as.map sxNat)]
+  | .nii t ma mi => .app "nii" [sxNat t.toNat, sxNat ma.toNat, sxNat mi.toNat]
+  | .clientLLA ht a => .app "clientlla" [sxNat ht, sxBytes a]
+  | .dhcpv4Msg p => .app "dhcpv4msg" [sxPkt4 p]
+  | .dhcp4o6Server ips => .app "dhcp4o6server" [.list (ips.map sxOptBytes)]
+  | .fourRD os => .app "4rd" [.list (os.map sxOpt)]
+  | .fourRDMapRule a b c d e f => .app "4rdmap" [sxNat a, sxOptBytes b, sxNat c, sxOptBytes d, sxNat e.toNat, sxBool f]
+  | .fourRDNonMapRule h tc p =>
+    .app "4rdnonmap" [sxBool h, (match tc with | none => .atom "nil" | some t => sxNat t.toNat), sxNat p]
+  | .relayPort p => .app "relayport" [sxNat p]
+  | .generic c d => .app "g" [sxNat c, sxBytes d]
+partial def sxMsg : Msg6 → Sx
+  | .msg t x os => .app "M" [sxNat t.toNat, sxBytes x, .list (os.map sxOpt)]
+  | .relay t h l p os => .app "R" [sxNat t.toNat, sxNat h.toNat, sxOptBytes l, sxOptBytes p, .list (os.map sxOpt)]
+end
+
+def ofSxLabels : Sx → Option Label.Labels
+  | .app "L" [o, .list ns] => do
+    let o ← o.optBytes
+    let ns ← ns.mapM Sx.bytes
+    pure { original := o, labels := ns }
+  | _ => none
+
+def ofSxDUID : Sx → Option DUID
+  | .app "llt" [a, b, c] => do pure (.llt (← a.nat) (← b.nat) (← c.bytes))
+  | .app "en" [a, b] => do pure (.en (← a.nat) (← b.bytes))
+  | .app "ll" [a, b] => do pure (.ll (← a.nat) (← b.bytes))
+  | .app "uuid" [a] => do pure (.uuid (← a.bytes))
+  | .app "opaque" [a, b] => do pure (.opaque (← a.nat) (← b.bytes))
+  | _ => none
+
+def ofSxNTP : Sx → Option NTPSub
+  | .app "srvaddr" [a] => do pure (.srvAddr (← a.optBytes))
+  | .app "mcaddr" [a] => do pure (.mcAddr (← a.optBytes))
+  | .app "srvfqdn" [a] => do pure (.srvFQDN (← ofSxLabels a))
+  | .app "g" [a, b] => do pure (.generic (← a.nat) (← b.bytes))
+  | _ => none
+
+def ofSxPkt4 : Sx → Option V4.Pkt4
+  | .atom s => parsePkt4 ((s.replace "+" ",").splitOn "|")
+  | _ => none
+
+def u8 (n : Nat) : UInt8 := UInt8.ofNat n
+
+mutual
+partial def ofSxOpt : Sx → Option Opt6
+  | .app "clientid" [d] => do pure (.clientID (← ofSxDUID d))
+  | .app "serverid" [d] => do pure (.serverID (← ofSxDUID d))
+  | .app "iana" [i, a, b, .list os] => do pure (.iana (← i.bytes) (← a.int) (← b.int) (← os.mapM ofSxOpt))
+  | .app "iata" [i, .list os] => do pure (.iata (← i.bytes) (← os.mapM ofSxOpt))
+  | .app "iaaddr" [ip, a, b, .list os] => do pure (.iaaddr (← ip.optBytes) (← a.int) (← b.int) (← os.mapM ofSxOpt))
+  | .app "oro" [.list cs] => do pure (.oro (← cs.mapM Sx.nat))
+  | .app "elapsed" [d] => do pure (.elapsed (← d.int))
+  | .app "relaymsg" [m] => do pure (.relayMsg (← ofSxMsg m))
+  | .app "status" [c, m] => do pure (.status (← c.nat) (← m.bytes))
+  | .app "userclass" [.list cs] => do pure (.userClass (← cs.mapM Sx.bytes))
+  | .app "vendorclass" [e, .list ds] => do pure (.vendorClass (← e.nat) (← ds.mapM Sx.bytes))
+  | .app "vendoropts" [e, .list os] => do
+    let os ← os.mapM (fun o => match o with
+      | .app "g" [c, d] => do pure ((← c.nat), (← d.bytes))
+      | _ => none)
+    pure (.vendorOpts (← e.nat) os)
+  | .app "interfaceid" [i] => do pure (.interfaceID (← i.bytes))
+  | .app "dns" [.list ips] => do pure (.dns (← ips.mapM Sx.optBytes))
+  | .app "domainsearch" [l] => do pure (.domainSearch (← ofSxLabels l))
+  | .app "iapd" [i, a, b, .list os] => do pure (.iapd (← i.bytes) (← a.int) (← b.int) (← os.mapM ofSxOpt))
+  | .app "iaprefix" [a, b, pfx, .list os] => do
+    let pfx ← (match pfx with
+      | .atom "nil" => some none
+      | .app "pfx" [n, ip] => do pure (some ((← n.nat), (← ip.optBytes)))
+      | _ => none)
+    pure (.iaprefix (← a.int) (← b.int) pfx (← os.mapM ofSxOpt))
+  | .app "inforefresh" [d] => do pure (.infoRefresh (← d.int))
+  | .app "remoteid" [e, i] => do pure (.remoteID (← e.nat) (← i.bytes))
+  | .app "fqdn" [f, n] => do pure (.fqdn (u8 (← f.nat)) (← ofSxLabels n))
+  | .app "ntp" [.list ss] => do pure (.ntp (← ss.mapM ofSxNTP))
+  | .app "bootfileurl" [u] => do pure (.bootfileURL (← u.bytes))
+  | .app "bootfileparam" [.list ps] => do pure (.bootfileParam (← ps.mapM Sx.bytes))
+  | .app "archtype" [.list xs] => do pure (.archType (← xs.mapM Sx.nat))
+  | .app "nii" [a, b, c] => do pure (.nii (u8 (← a.nat)) (u8 (← b.nat)) (u8 (← c.nat)))
+  | .app "clientlla" [h, a] => do pure (.clientLLA (← h.nat) (← a.bytes))
+  | .app "dhcpv4msg" [p] => do pure (.dhcpv4Msg (← ofSxPkt4 p))
+  | .app "dhcp4o6server" [.list ips] => do pure (.dhcp4o6Server (← ips.mapM Sx.optBytes))
+  | .app "4rd" [.list os] => do pure (.fourRD (← os.mapM ofSxOpt))
+  | .app "4rdmap" [a, b, c, d, e, f] => do
+    pure (.fourRDMapRule (← a.nat) (← b.optBytes) (← c.nat) (← d.optBytes) (u8 (← e.nat)) (← f.bool))
+  | .app "4rdnonmap" [h, tc, p] => do
+    let tc ← (match tc with
+      | .atom "nil" => some none
+      | t => t.nat.map (fun n => some (u8 n)))
+    pure (.fourRDNonMapRule (← h.bool) tc (← p.nat))
+  | .app "relayport" [p] => do pure (.relayPort (← p.nat))
+  | .app "g" [c, d] => do pure (.generic (← c.nat) (← d.bytes))
+  | _ => none
+partial def ofSxMsg : Sx → Option Msg6
+  | .app "M" [t, x, .list os] => do pure (.msg (u8 (← t.nat)) (← x.bytes) (← os.mapM ofSxOpt))
+  | .app "R" [t, h, l, p, .list os] => do
+    pure (.relay (u8 (← t.nat)) (u8 (← h.nat)) (← l.optBytes) (← p.optBytes) (← os.mapM ofSxOpt))
+  | _ => none
+end
+
+def showR {α} (f : α → Sx) : Res α → String
+  | .ok a => "ok " ++ (f a).show
+  | .err => "err"
+  | .panic => "panic"
+
+def stepV6 (op : String) (args : List String) : Option String :=
+  match op, args with
+  | "v6dec", [h] => do pure (showR sxMsg (dec6 (← unhex h)))
+  | "v6msgdec", [h] => do pure (showR sxMsg (decMessage (← unhex h)))
+  | "v6relaydec", [h] => do pure (showR sxMsg (decRelay (← unhex h)))
+  | "v6opt", [c, h] => do pure (showR sxOpt (parseOption (← c.toNat?) (← unhex h)))
+  | "v6opts", [h] => do pure (showR (fun os => Sx.list (os.map sxOpt)) (decOpts (← unhex h)))
+  | "v6duid", [h] => do pure (showR sxDUID (decDUID (← unhex h)))
+  | "v6enc", [t] => do
+    let m ← ofSxMsg (← Sx.parse t)
+    pure ("ok " ++ hex (encMsg m))
+  | "v6optenc", [t] => do
+    let o ← ofSxOpt (← Sx.parse t)
+    pure ("ok " ++ toString o.code ++ " " ++ hex (encOpt o))
+  | "v6fix", [h] => do
+    let b ← unhex h
+    pure (match dec6 b with
+      | .ok m =>
+        let b1 := encMsg m
+        (match dec6 b1 with
+         | .ok m1 => "ok " ++ hex b1 ++ " " ++ hex (encMsg m1)
+         | _ => "ok " ++ hex b1 ++ " err")
+      | .err => "err"
+      | .panic => "panic")
+  | _, _ => none
 
 end Dhcp.Driver
